@@ -26,6 +26,7 @@ import bisect
 import json
 import logging
 import os
+import re
 import shutil
 import subprocess
 import sys
@@ -779,6 +780,13 @@ def _lenient_class(why):
     return "undecodable-bytes-inside-structure"
 
 
+def _envelope_key(problem):
+    """Stable bucket key for one problem reported by ttlvref.check_response_envelope."""
+    if problem.startswith("not well-formed TTLV"):
+        return "C12|envelope|not well-formed TTLV|" + _classify(problem)
+    return "C12|envelope|" + re.sub(r"\bH\b", "N", core.norm_msg(problem))
+
+
 def check_frames(stream, obs, tail_off, B, info):
     """Per-frame oracle over one run.  B: dict bucket -> detail.  info: per-frame judgement list
     (filled for the caller)."""
@@ -811,7 +819,7 @@ def check_frames(stream, obs, tail_off, B, info):
         bind = J["version"] if (J["ok"] and lib_ok and J["version"] in SUPPORTED) else None
         for resp in sent:
             for p in ttlvref.check_response_envelope(resp, bind):
-                add("C12|envelope|" + core.norm_msg(p), "%s\nresponse %s\n%s" % (p, resp.hex()[:400], ctx))
+                add(_envelope_key(p), "%s\nresponse %s\n%s" % (p, resp.hex()[:400], ctx))
         before = obs.dumps.get(a)
         after = obs.dumps.get(b, obs.final_dump if k == len(frames) - 1 else None)
         changed = ""
@@ -1087,7 +1095,7 @@ def run_case(spec):
                         add("C12|max-response-size|wrong-answer-when-exceeded", what)
                     else:
                         for p in ttlvref.check_response_envelope(resp, gv):
-                            add("C12|envelope|" + core.norm_msg(p), "too-large answer: " + p)
+                            add(_envelope_key(p), "too-large answer: " + p)
                 else:
                     if too_large:
                         add("C12|max-response-size|refused-although-it-fits", what)
